@@ -9,7 +9,7 @@ from ..core import AnchorError, Undecided
 from ..flow import _strip, facts_at
 from ..tables import enum_paths, return_value_on_path
 
-CRATES = ["apollo_compiler"]
+CRATES = ["apollo_parser", "apollo_compiler"]
 LEVEL = "other"
 EXPLANATION = """
 C12.ORDERED: every collection field of the schema / executable / AST types is an insertion-ordered
@@ -440,5 +440,9 @@ def run(prog, rep):
     rule_implicit(prog, rep)
     rule_implicit_roots(prog, rep)
     rule_toplevel(prog, rep)
+    # the serialized form is printed by the AST printer: its dispatch / separator / string rules
+    # are necessary conditions here too (decided by C08 / C09, shared)
+    from . import C08
+    C08.run(prog, rep)
     rep.assume("indexmap keeps insertion order under insert/shift_remove/retain; Vec keeps push order")
     rep.note("round-trip equality, the closure that compares actual and default root names, and AST serialization itself (C08/C09) are not decided here")
